@@ -59,9 +59,11 @@ class DirDBM:
             # but before renaming the replacement entry.
             #
             # NOTE: '.' is NOT in the base64 alphabet!
-            for f in glob.glob(self._dnamePath.child("*.new").path):
+            # The directory name is not a pattern: only the final segment is.
+            escaped = FilePath(glob.escape(self._dnamePath.path))
+            for f in glob.glob(escaped.child("*.new").path):
                 os.remove(f)
-            replacements = glob.glob(self._dnamePath.child("*.rpl").path)
+            replacements = glob.glob(escaped.child("*.rpl").path)
             for f in replacements:
                 old = f[:-4]
                 if os.path.exists(old):
